@@ -1,0 +1,20 @@
+//go:build verif
+
+package dist
+
+import (
+	"sync/atomic"
+
+	"github.com/acquirecloud/golibs/sync"
+)
+
+// VerifLockerState is a read-only view of a Locker made by kvsLockProvider.NewLocker:
+// whether the one-slot channel lockCh currently holds the token and the value of lckCntr.
+// ok is false when l is not a *kvsLock. Used by the C01/C04 verification harness only.
+func VerifLockerState(l sync.Locker) (token bool, cntr int32, ok bool) {
+	kl, isKvs := l.(*kvsLock)
+	if !isKvs {
+		return false, 0, false
+	}
+	return len(kl.lockCh) > 0, atomic.LoadInt32(&kl.lckCntr), true
+}
